@@ -324,4 +324,4 @@ REQUIRED_OUTCOMES = ("ok:1resp:open", "reject:", "ok:3resp")
 
 def bounds(tier):
     return {"streams": sorted(STREAMS), "steps": "1 stream (all 21) with every cut and every behaviour of the first 3 requests; 2 streams (first fixed per job, second from 7) with 4 behaviours",
-            "behaviours": BEHAVIOURS, "queue_cap": 32, "virtual_time": "6 s advanced after each step"}
+            "behaviours": BEHAVIOURS, "flow": "the in-memory transport honours pause_reading; read_bufsize=1 jobs on the body-carrying streams and a 32-deep pipeline whose last request body arrives in a second read with read_bufsize=4", "queue_cap": 32, "virtual_time": "6 s advanced after each step"}
